@@ -24,6 +24,7 @@ import io
 import json
 import os
 import random
+import signal
 import types
 
 from ..translate import c14 as tr
@@ -32,7 +33,7 @@ PROPERTY = "C14"
 CASE_TIMEOUT = 30  # s of wall clock per case in pool workers (runner watchdog): a case that spins forever is a verdict, not exit 2
 THEOREM_MODULE = "NemoVerif.Theorems.C14"
 RULE = ("program: 1-2 dialog flows (distinct start intents) + 0-2 subflows over user/bot/execute/set/if-else/while/"
-        "break/continue/do, nesting <= 4, plus dedicated nested-`do` chain programs (depth 2-3, inner call in last position) and computation-loop programs (counters/accumulators, iterations without a blocking statement); condensed re-entry histories (the start intent right after the flow completed or was aborted); history: produced by walking the program with the reference interpreter, "
+        "break/continue/do, nesting <= 4, plus dedicated nested-`do` chain programs (depth 2-3, inner call in last position) and computation-loop programs (counters/accumulators, iterations without a blocking statement), if/if-else trees inside counter loops at every nesting depth (both condition values while the loop runs), context-dependent subflows called several times; condensed re-entry histories (the start intent right after the flow completed or was aborted); history: produced by walking the program with the reference interpreter, "
         "following it or leaving it (other intent, other bot step, failed action, hide_prev_turn, restart) at a random "
         "point, then a random tail; decisions compared on every prefix. non-trivial = the program has a conditional or "
         "loop or subflow call AND the history reaches at least 3 decisions; distinct = distinct (program, history).")
@@ -46,7 +47,7 @@ ASSUMPTIONS = [
     "kind llm: llm_flows.co + generated self-check style rails; object paths ($config.x.y, $event.x, $generation_options.x.y) are flattened; an unguarded attribute path through None raises in Python but reads None in the model (shipped flows guard)",
     "kinds fn/rt — structured subset only: user/bot/execute/set/if-else/while/break/continue/do; no when/else-when (branch), labels/goto, check/stop, flow parameters, priorities other than 1.0, extension flows",
     "context values are None/bool/int/str; expressions do not mention $event/$config/$last_user_message/$last_bot_message",
-    "every while body starts with a step statement (the real slide does not terminate otherwise)",
+    "every generated loop terminates by construction: its body starts with a step statement, or it is a counter loop ($i/$j/$k incremented unconditionally at the top level of the body); every call into the code under test runs under a CPU-time limit, a call that does not return where the reference interpreter reaches the next statement is a violation",
     "uids are modelled by a counter (they are never part of a decision)",
 ]
 
@@ -384,6 +385,203 @@ def g_compute_program(rng, tier):
     return [{"name": "f0", "sub": False, "body": main}] + subs
 
 
+
+def g_ifwhile_program(rng, tier):
+    """`if` / `if-else` trees INSIDE `while` loops, at every nesting depth (if in while, if in if in while, if in the
+    else branch, if in an inner while of an outer while, while inside an if branch, the loop inside a subflow), with
+    conditions on the loop counters so that BOTH values of every condition occur while the loop is running, blocking
+    statements in the branches and AFTER the conditional inside the loop body (a wrong jump out of / to the head of the
+    loop skips them), `break` / `continue` under some of the conditions, and statements after the loop.  Every loop is
+    a counter loop ($i/$j/$k, incremented unconditionally at the top level of its body, first or last), so every
+    slide terminates by construction."""
+    nm = Names()
+    lit = lambda n: {"lit": {"i": n}}  # noqa: E731
+    var = lambda v: {"var": v}  # noqa: E731
+
+    def blocking(allow_user=True):
+        r = rng.random()
+        if r < 0.55:
+            return {"b": nm.bot()}
+        if r < 0.75 and allow_user:
+            return {"u": nm.user()}
+        return {"x": [nm.act(), [], rng.choice([None, "r"])]}
+
+    def cond(c, k):
+        """a condition over the running counter that is true in some iterations and false in others"""
+        r = rng.random()
+        a = rng.randrange(0, k)
+        if r < 0.35:
+            return {"bin": ["eq", var(c), lit(a)]}
+        if r < 0.5:
+            return {"bin": ["ne", var(c), lit(a)]}
+        if r < 0.7:
+            return {"bin": [rng.choice(["lt", "ge"]), var(c), lit(rng.randrange(1, k) if k > 1 else 1)]}
+        if r < 0.8:
+            return {"bin": ["eq", {"bin": ["add", var(c), var(rng.choice(VARS))]}, lit(rng.randrange(0, k + 1))]}
+        if r < 0.9:
+            return {"bin": [rng.choice(["and", "or"]), {"bin": ["ge", var(c), lit(a)]}, {"bin": ["lt", var(rng.choice(VARS)), lit(rng.choice([1, 2]))]}]}
+        return {"not": {"bin": ["eq", var(c), lit(a)]}}
+
+    def branch(c, k, idepth, cvars, can_continue, wdepth):
+        out = []
+        for _ in range(rng.choice([1, 1, 2])):
+            r = rng.random()
+            if idepth > 0 and r < 0.3:
+                out.append(iftree(c, k, idepth - 1, cvars, can_continue, wdepth))
+            elif r < 0.65:
+                out.append(blocking())
+            elif r < 0.85:
+                v = rng.choice(VARS)
+                out.append({"set": [v, {"bin": ["add", var(v), lit(1)]}]})
+            elif wdepth > 0 and len(cvars) > 1 and r < 0.93:
+                out.extend(loop(cvars[1:], wdepth - 1, rng.choice([0, 1])))   # a while inside an if branch
+            else:
+                out.append(blocking(False))
+        if rng.random() < 0.15:
+            out.append({"break": 1} if (rng.random() < 0.5 or not can_continue) else {"continue": 1})
+        return out
+
+    def iftree(c, k, idepth, cvars, can_continue, wdepth):
+        els = branch(c, k, idepth, cvars, can_continue, wdepth) if rng.random() < 0.55 else []
+        return {"if": [cond(c, k), branch(c, k, idepth, cvars, can_continue, wdepth), els]}
+
+    def loop(cvars, wdepth, idepth):
+        c = cvars[0]
+        k = rng.choice([2, 3, 3, 4])
+        inc = {"set": [c, {"bin": ["add", var(c), lit(1)]}]}
+        inc_first = rng.random() < 0.4
+        body = []
+        for _ in range(rng.choice([1, 1, 2])):
+            if rng.random() < 0.25:
+                body.append(blocking() if rng.random() < 0.6 else {"set": ["t", {"bin": ["add", var("t"), var(c)]}]})
+            body.append(iftree(c, k + (1 if inc_first else 0), idepth, cvars, inc_first, wdepth))
+        if wdepth > 0 and len(cvars) > 1 and rng.random() < 0.45:
+            body.extend(loop(cvars[1:], wdepth - 1, rng.choice([0, 1, 2])))
+        # what follows the conditional inside the body: skipped by a jump out of the loop or back to its head
+        r = rng.random()
+        if inc_first and r < 0.4:
+            # if/else as the LAST statement of the body (the jump over `else` lands on the loop's jump back), with a
+            # condition that holds in the last iteration
+            last = iftree(c, k + 1, max(idepth - 1, 0), cvars, True, 0)
+            if not last["if"][2]:
+                last["if"][2] = [blocking(False)]
+            if rng.random() < 0.6:
+                last["if"][0] = {"bin": [rng.choice(["eq", "ge"]), var(c), lit(k)]}
+            body.append(last)
+        elif r < 0.6:
+            body.append(blocking())
+        elif r < 0.8:
+            body.append({"set": ["t", {"bin": ["add", var("t"), lit(1)]}]})
+        body = [inc] + body if inc_first else body + [inc]
+        return [{"set": [c, lit(0)]}, {"while": [{"bin": ["lt", var(c), lit(k)]}, body]}]
+
+    init = [{"set": [a, lit(rng.choice([0, 0, 1]))]} for a in ["t"] + VARS]
+    if rng.random() < 0.5:
+        init.append({"set": ["r", {"lit": rng.choice([False, True, {"i": 0}])}]})
+    subs = []
+    main = [{"u": nm.user()}] + init
+    if rng.random() < 0.3:
+        main.append({"b": nm.bot()})
+    shape = rng.random()
+    if shape < 0.2:
+        subs.append({"name": "s0", "sub": True, "body": loop(["j", "k"], 1, rng.choice([1, 2])) + ([blocking()] if rng.random() < 0.5 else [])})
+        main.append({"do": "s0"})
+    elif shape < 0.35:
+        # the loop (with its conditionals) inside an if branch of the flow
+        main.append({"if": [{"bin": ["lt", var("x"), lit(2)]}, loop(["i", "j", "k"], 1, rng.choice([1, 2])), [blocking(False)] if rng.random() < 0.5 else []]})
+    else:
+        main += loop(["i", "j", "k"], rng.choice([0, 1, 1, 2]), rng.choice([0, 1, 1, 2, 3]))
+    main.append({"b": nm.bot()})           # the statement after the loop
+    if rng.random() < 0.4:
+        main += loop(["i", "j"], 0, 1)      # the same counter again: the second reach of a loop head
+        main.append({"b": nm.bot()})
+    return [{"name": "f0", "sub": False, "body": main}] + subs
+
+
+def g_subcall_program(rng, tier):
+    """The SECOND use of a subflow: subflows whose statements all sit under conditions on context variables (so a call
+    may run through without blocking and without assigning anything, or block, depending on the context), called
+    several times — twice in sequence with the context changed in between, in every iteration of a loop of the caller
+    (guards on the loop counter), from two dialog flows, nested (s0 calls s1 under a guard) — each call placed directly
+    after a step statement of the caller, so that the event on which the call happens has assigned nothing before it."""
+    nm = Names()
+    lit = lambda n: {"lit": {"i": n}}  # noqa: E731
+    var = lambda v: {"var": v}  # noqa: E731
+
+    def blocking(allow_user=True):
+        r = rng.random()
+        if r < 0.55:
+            return {"b": nm.bot()}
+        if r < 0.75 and allow_user:
+            return {"u": nm.user()}
+        return {"x": [nm.act(), [], rng.choice([None, "r"])]}
+
+    def guarded_body(v, callee=None):
+        body = []
+        for _ in range(rng.choice([1, 1, 2])):
+            c = {"bin": [rng.choice(["eq", "ge", "lt", "ne"]), var(v), lit(rng.choice([0, 1, 1, 2]))]}
+            then = [blocking()] if rng.random() < 0.75 else [{"set": [rng.choice(["y", "z"]), {"bin": ["add", var("y"), lit(1)]}]}]
+            if callee and rng.random() < 0.4:
+                then.append({"do": callee})
+                callee = None
+            if rng.random() < 0.3:
+                then.append({"set": ["z", {"bin": ["add", var("z"), lit(1)]}]})
+            els = []
+            if rng.random() < 0.3:
+                els = [blocking(False)] if rng.random() < 0.5 else [{"set": ["z", lit(rng.choice([0, 2]))]}]
+            body.append({"if": [c, then, els]})
+        if rng.random() < 0.15:
+            body.append(blocking(False))
+        return body
+
+    shape = rng.choice(["twice", "twice", "loop", "loop", "two_flows"])
+    gv = "i" if shape == "loop" else "x"
+    nested = rng.random() < 0.35
+    subs = []
+    if nested:
+        subs.append({"name": "s1", "sub": True, "body": guarded_body(rng.choice([gv, "y"]))})
+    subs.insert(0, {"name": "s0", "sub": True, "body": guarded_body(gv, "s1" if nested else None)})
+    init = [{"set": [a, lit(rng.choice([0, 0, 1]))]} for a in VARS]
+    main = [{"u": nm.user()}] + init + [{"b": nm.bot()}]
+    mains = []
+    if shape == "twice":
+        main += [{"do": "s0"}, {"b": nm.bot()}, {"set": ["x", {"bin": ["add", var("x"), lit(rng.choice([1, 1, 2]))]}]}, blocking(False), {"do": "s0"}]
+        if rng.random() < 0.5:
+            main += [{"set": ["x", {"bin": ["add", var("x"), lit(1)]}]}, {"b": nm.bot()}, {"do": "s0"}]
+    elif shape == "loop":
+        k = rng.choice([2, 3, 3])
+        body = [blocking(False), {"do": "s0"}]
+        if rng.random() < 0.4:
+            body.append({"if": [{"bin": ["eq", var("i"), lit(rng.randrange(0, k))]}, [blocking()], []]})
+        body.append({"set": ["i", {"bin": ["add", var("i"), lit(1)]}]})
+        main += [{"set": ["i", lit(0)]}, {"while": [{"bin": ["lt", var("i"), lit(k)]}, body]}]
+    else:
+        main += [{"do": "s0"}]
+        other = [{"u": nm.user()}, {"set": ["x", lit(rng.choice([1, 2]))]}, {"b": nm.bot()}, {"do": "s0"}, {"b": nm.bot()}]
+        mains.append({"name": "f1", "sub": False, "body": other})
+    main.append({"b": nm.bot()})
+    return [{"name": "f0", "sub": False, "body": main}] + mains + subs
+
+
+def if_in_while_profile(flows):
+    """{(while depth, if depth)} of every `if` that sits inside a loop (AST level), for the distribution counters"""
+    out = set()
+
+    def walk(ss, wd, idp):
+        for s in ss:
+            if "if" in s:
+                if wd > 0:
+                    out.add((wd, idp + 1))
+                walk(s["if"][1], wd, idp + 1)
+                walk(s["if"][2], wd, idp + 1)
+            elif "while" in s:
+                walk(s["while"][1], wd + 1, 0)
+
+    for f in flows:
+        walk(f["body"], 0, 0)
+    return out
+
+
 # ----------------------------------------------------------------------------- rendering to Colang 1.0
 
 _OPS = {"eq": "==", "ne": "!=", "lt": "<", "le": "<=", "gt": ">", "ge": ">=", "add": "+", "sub": "-", "and": "and", "or": "or"}
@@ -488,6 +686,10 @@ class _EvalError(Exception):
     pass
 
 
+class _BudgetOut(_EvalError):
+    """the reference ran 4000 statements without reaching a step statement: the PROGRAM does not terminate here"""
+
+
 def ref_eval(e, ctx):
     if "lit" in e:
         return tr.val_from_model(e["lit"])
@@ -529,7 +731,7 @@ def ref_block(stmts, ctx, upd, flows, budget):
     for s in stmts:
         budget[0] -= 1
         if budget[0] < 0:
-            raise _EvalError()
+            raise _BudgetOut()
         if "u" in s:
             yield ("user", s["u"])
         elif "b" in s:
@@ -548,6 +750,9 @@ def ref_block(stmts, ctx, upd, flows, budget):
         elif "while" in s:
             c, b = s["while"]
             while ref_eval(c, ctx):
+                budget[0] -= 1
+                if budget[0] < 0:
+                    raise _BudgetOut()
                 try:
                     yield from ref_block(b, ctx, upd, flows, budget)
                 except _Break:
@@ -597,6 +802,7 @@ class Ref:
         self.abstain = False
         self.suspended = False
         self.error = False
+        self.budget_out = False
         self.finished_on_start = False  # some run ended within its starting event (region of the open finding)
         self.live_after_leave = False
         self.nsteps = 0
@@ -619,9 +825,10 @@ class Ref:
                     self.suspended = False
                 else:
                     self.abstain = True
-        except _EvalError:
+        except _EvalError as ex:
             self.error = True
             self.abstain = True
+            self.budget_out = self.budget_out or isinstance(ex, _BudgetOut)
         except (_Break, _Continue):
             self.abstain = True
 
@@ -649,9 +856,10 @@ class Ref:
             except StopIteration:
                 self.finished_on_start = True
                 cands.append((name, gen, None))
-            except _EvalError:
+            except _EvalError as ex:
                 self.error = True
                 self.abstain = True
+                self.budget_out = self.budget_out or isinstance(ex, _BudgetOut)
                 return
             except (_Break, _Continue):
                 self.abstain = True
@@ -1014,6 +1222,20 @@ def gen_cases(rng, tier):
         flows = g_compute_program(sub2, tier)
         for mode in ("follow", "follow", "leave"):
             cases.append({"kind": "fn" if sub2.random() < 0.9 else "rt", "flows": flows, "history": g_history(sub2, flows, mode), "seed": sub2.randrange(1 << 30)})
+    # conditionals inside loops, every nesting depth, both condition values while the loop runs
+    sub5 = random.Random(rng.randrange(1 << 30))
+    for _ in range(45 if tier == "quick" else 450):
+        flows = g_ifwhile_program(sub5, tier)
+        for mode in ("follow", "follow", "leave"):
+            cases.append({"kind": "fn" if sub5.random() < 0.88 else "rt", "flows": flows, "history": g_history(sub5, flows, mode), "seed": sub5.randrange(1 << 30)})
+        cases.append({"kind": "fn", "flows": flows, "history": g_reentry_history(sub5, flows), "seed": sub5.randrange(1 << 30)})
+    # the second use of a subflow whose behaviour depends on the context
+    sub6 = random.Random(rng.randrange(1 << 30))
+    for _ in range(40 if tier == "quick" else 350):
+        flows = g_subcall_program(sub6, tier)
+        for mode in ("follow", "follow", "leave"):
+            cases.append({"kind": "fn" if sub6.random() < 0.88 else "rt", "flows": flows, "history": g_history(sub6, flows, mode), "seed": sub6.randrange(1 << 30)})
+        cases.append({"kind": "fn", "flows": flows, "history": g_reentry_history(sub6, flows), "seed": sub6.randrange(1 << 30)})
     return cases
 
 
@@ -1054,12 +1276,95 @@ def worker_init():
     _M.dispatcher = None
 
 
-def load_configs(src):
+
+# ----------------------------------------------------------------------------- CPU-time guard around the code under test
+# Every call into the code under test (parser, slide, compute_next_state / compute_next_steps, generate_events) runs
+# under a CPU-time limit of THIS process (ITIMER_VIRTUAL: independent of machine load and of the runner's SIGALRM),
+# in pool workers and in the main process alike (corpus, shrink candidates, the escalated search, --replay).  A call
+# that does not return is an OBSERVATION ({"exc": "hang"} / {"res": "hang"}): the oracle turns it into a violation
+# when the reference interpreter says that the structured program reaches its next statement (a structured program
+# that terminates must make the interpreter terminate), the correspondence accepts it only where the model runs out
+# of fuel as well.  After the first hang of a case the following calls get a short limit, and once HANG_TOTAL seconds
+# were spent in hanging calls the remaining calls of the case are not made at all (reported as hangs).
+
+class _Hang(BaseException):
+    pass
+
+
+HANG_CALL = 2.0     # s of CPU per call (normal calls: 1-20 ms)
+HANG_AFTER = 0.25   # per call after the first hang of the case
+HANG_TOTAL = 3.0    # CPU spent in hanging calls per case before the rest is skipped
+# A tree on which hundreds of cases spin must still get its verdict within the quick budget: once this process (or the
+# process it was forked from: the runner evaluates shrink candidates in fresh workers) has seen SICK_AFTER cases hang,
+# the limits drop to HANG_CALL_SICK per call and one hanging call per case.  `--replay` always runs with the full limits.
+SICK_AFTER = 3
+HANG_CALL_SICK = 0.3
+_G = types.SimpleNamespace(armed=False, hangs=0, spent=0.0, skipped=0, sick=0)
+
+
+def _on_vtalrm(signum, frame):
+    if _G.armed:
+        f = frame
+        while f is not None:
+            if f.f_code.co_name == "__del__":
+                return   # an exception raised inside a finalizer is swallowed ("Exception ignored in …"): wait for the next tick
+            f = f.f_back
+        raise _Hang()
+
+
+def guard_reset():
+    _G.armed = False
+    _G.hangs = 0
+    _G.spent = 0.0
+    _G.skipped = 0
+
+
+def guarded(fn, *args, _scale=1.0, _always=False, **kw):
+    """fn(*args) under the CPU limit; raises _Hang when it did not return."""
+    sick = _G.sick >= SICK_AFTER
+    if _G.spent >= (HANG_CALL_SICK if sick else HANG_TOTAL) and not _always:
+        _G.skipped += 1
+        raise _Hang()
+    limit = ((HANG_CALL_SICK if sick else HANG_CALL) if _G.hangs == 0 else HANG_AFTER) * _scale
+    old = signal.signal(signal.SIGVTALRM, _on_vtalrm)
+    _G.armed = True
+    signal.setitimer(signal.ITIMER_VIRTUAL, limit, 0.2)   # repeats: a handler inside the code under test may swallow one
+    try:
+        try:
+            return fn(*args, **kw)
+        finally:
+            _G.armed = False
+            signal.setitimer(signal.ITIMER_VIRTUAL, 0)
+    except _Hang:
+        _G.hangs += 1
+        _G.spent += limit
+        raise
+    finally:
+        _G.armed = False
+        signal.setitimer(signal.ITIMER_VIRTUAL, 0)
+        signal.signal(signal.SIGVTALRM, old)
+
+
+def is_hang(d):
+    return isinstance(d, dict) and (d.get("exc") == "hang" or d.get("res") == "hang")
+
+
+def same_decision(a, b):
+    """REUSE comparisons make no claim about a call that did not return (the FOLLOW clause / the correspondence do)"""
+    return a == b or is_hang(a) or is_hang(b)
+
+
+def _load_configs_raw(src):
     r = _M.parse("gen.co", content=src, version="1.0", include_source_mapping=False)
     holder = types.SimpleNamespace(flow_configs={})
     for f in r["flows"]:
         _M.RT._load_flow_config(holder, f)
     return holder.flow_configs
+
+
+def load_configs(src):
+    """the repo's parser + `_load_flow_config`, under the CPU guard (raises _Hang)"""
+    return guarded(_load_configs_raw, src, _scale=5.0, _always=True)
 
 
 def to_real_event(ev):
@@ -1104,7 +1409,9 @@ def canon_steps(steps):
 
 def decide(history_real, cfgs, rails_config=None):
     try:
-        return {"ok": canon_steps(_M.fl.compute_next_steps(copy.deepcopy(history_real), cfgs, rails_config, []))}
+        return {"ok": canon_steps(guarded(_M.fl.compute_next_steps, copy.deepcopy(history_real), cfgs, rails_config, []))}
+    except _Hang:
+        return {"exc": "hang"}
     except (AssertionError, IndexError):
         return {"exc": "index"}
     except KeyError:
@@ -1129,10 +1436,10 @@ def zombie_flags(history, cfgs_factory):
         z = False
         for ev in actual:
             try:
-                st = fl.compute_next_state(st, copy.deepcopy(to_real_event(ev)))
+                st = guarded(fl.compute_next_state, st, copy.deepcopy(to_real_event(ev)))
                 if ev == {"e": "bot", "i": "stop"}:
                     st.flow_states = []
-            except Exception:  # noqa
+            except (Exception, _Hang):  # noqa
                 out.extend([z] * (len(actual) - len(out)))
                 return out
             z = z or any(fs.status == fl.FlowStatus.ACTIVE and isinstance(fs.head, int) and fs.head < 0 for fs in st.flow_states)
@@ -1456,13 +1763,15 @@ def llm_drive(case, cfgs, rails_config):
                                 "is_success": True, "return_value": rv, "events": evs})
                     nxt.extend(evs)
                 else:
-                    steps = fl.compute_next_steps(copy.deepcopy(hist), cfgs, rails_config, [])
+                    steps = guarded(fl.compute_next_steps, copy.deepcopy(hist), cfgs, rails_config, [])
                     nxt = [{k: v for k, v in e.items() if k not in ("uid", "event_created_at", "source_uid")} for e in steps]
                     if not nxt:
                         nxt = [{"type": "Listen"}]
                 hist.extend(nxt)
                 if nxt[-1]["type"] == "Listen":
                     break
+    except _Hang:
+        return hist, "hang: compute_next_steps did not return within the CPU limit"
     except Exception as e:  # noqa
         return hist, type(e).__name__ + ": " + str(e)[:120]
     finally:
@@ -1503,6 +1812,8 @@ def run_impl_llm(case):
             used_cfgs = load_configs(full)
             n_llm = len(load_configs(src))
             mc_all, why = model_cfgs(used_cfgs)
+        except _Hang:
+            return dict(obs, parse_exc="hang: the parser did not return within the CPU limit")
         except Exception as e:  # noqa
             return dict(obs, parse_exc=type(e).__name__ + ": " + str(e)[:200])
         obs["unsupported"] = why
@@ -1526,9 +1837,9 @@ def run_impl_llm(case):
         rng.shuffle(order)
         again = {k: decide(real[:k], used_cfgs, rails_config) for k in order}
         obs["used"] = used
-        obs["again_diff"] = [k for k in range(n + 1) if again[k] != used[k]]
+        obs["again_diff"] = [k for k in range(n + 1) if not same_decision(again[k], used[k])]
         ks = range(n + 1) if n <= 25 else sorted(rng.sample(range(n + 1), 25))
-        obs["fresh_diff"] = [[k, d, used[k]] for k in ks for d in [decide(real[:k], load_configs(full), rails_config)] if d != used[k]]
+        obs["fresh_diff"] = [[k, d, used[k]] for k in ks for d in [decide(real[:k], load_configs(full), rails_config)] if not same_decision(d, used[k])]
         mc2, _ = model_cfgs(used_cfgs)
         obs["cfgs_changed_by_use"] = mc2 != mc_all
         obs["zombie"] = [False] * (n + 1)
@@ -1548,25 +1859,55 @@ def run_impl_llm(case):
 
 
 def run_impl(case):
-    if case["kind"] == "llm":
-        return run_impl_llm(case)
+    guard_reset()
+    try:
+        obs = run_impl_llm(case) if case["kind"] == "llm" else run_impl_fn(case)
+    except _Hang:
+        # a guarded call outside compute_next_steps / slide / generate_events (they report their own hangs): the parser
+        obs = {"parse_exc": "hang: the parser / flow loader did not return within the CPU limit on a source it had parsed before"}
+    finally:
+        _G.armed = False
+        signal.setitimer(signal.ITIMER_VIRTUAL, 0)
+    if _G.hangs or _G.skipped:
+        obs["hangs"] = {"calls": _G.hangs, "skipped": _G.skipped, "limit": HANG_CALL_SICK if _G.sick >= SICK_AFTER else HANG_CALL}
+        _G.sick += 1
+    return obs
+
+
+def run_impl_fn(case):
     obs = {}
     src = render(case["flows"])
     obs["src"] = src
     with contextlib.redirect_stdout(io.StringIO()):
         try:
             used_cfgs = load_configs(src)
+        except _Hang:
+            return {"parse_exc": "hang: the parser did not return within the CPU limit", "src": src}
         except Exception as e:  # noqa
             return {"parse_exc": type(e).__name__ + ": " + str(e)[:200], "src": src}
         mc, why = model_cfgs(used_cfgs)
         obs["mcfgs"] = mc
         obs["unsupported"] = why
+        try:
+            # the loop keys of EVERY element dict (`if`, `set`, `jump`, steps … included), before any use
+            obs["akeys"] = {fid: [tr.loop_keys(e) for e in fc.elements] for fid, fc in used_cfgs.items()}
+        except tr.Unsupported as e:
+            obs["akeys"] = None
+            obs["unsupported"] = obs["unsupported"] or str(e)
         history = case["history"]
         if case["kind"] == "rt":
             try:
-                fresh, used = run_rt(case, src)
+                fresh, used = guarded(run_rt, case, src, _scale=6.0)
             except tr.Unsupported as e:
                 return dict(obs, rt_skip=str(e))
+            except _Hang:
+                # generate_events did not return: go on with the generated history (kind fn); the prefix on which
+                # compute_next_steps spins is then found (and judged) below
+                obs["rt_hang"] = True
+                _G.spent = 0.0   # keep the short per-call limit, but do look for the prefix that spins
+                case = dict(case, kind="fn")
+                fresh = used = None
+        if case["kind"] == "rt":
             obs["rt_same"] = fresh == used
             try:
                 obs["gen"] = [{"events": [gen_event_for_model(e) for e in r["before"]], "new": [gen_canon_real(e) for e in r["new"]]}
@@ -1600,13 +1941,13 @@ def run_impl(case):
                 decide([to_real_event({"e": "user", "i": rng.choice(INTENTS_EXTRA)})] + real[k:], used_cfgs)
             again[k] = decide(real[:k], used_cfgs)
         obs["used"] = used
-        obs["again_diff"] = [k for k in range(n + 1) if again[k] != used[k]]
+        obs["again_diff"] = [k for k in range(n + 1) if not same_decision(again[k], used[k])]
         # (2) freshly parsed flow configs for every prefix
         ks = range(n + 1) if n <= 30 else sorted(rng.sample(range(n + 1), 30))
         fresh_diff = []
         for k in ks:
             d = decide(real[:k], load_configs(src))
-            if d != used[k]:
+            if not same_decision(d, used[k]):
                 fresh_diff.append([k, d, used[k]])
         obs["fresh_diff"] = fresh_diff
         obs["zombie"] = zombie_flags(history, lambda: load_configs(src))
@@ -1623,13 +1964,50 @@ def run_impl(case):
                 ctx = dict(ctxs[(head + len(slides)) % 3])
                 st = _M.fl.State(context=ctx, flow_states=[], flow_configs=fresh_cfgs)
                 try:
-                    h = _M.sliding.slide(st, fc, head)
+                    h = guarded(_M.sliding.slide, st, fc, head)
                     res = {"res": "at" if h is not None and h >= 0 else "fin", "head": h, "ctx": sorted([k, tr.val_to_model(v)] for k, v in st.context.items()), "upd": sorted([k, tr.val_to_model(v)] for k, v in st.context_updates.items())}
+                except _Hang:
+                    res = {"res": "hang"}
                 except tr.Unsupported:
                     res = {"res": "unsupported"}
                 except Exception as e:  # noqa
                     res = {"res": "err"} if str(e).startswith("Error evaluating") else {"res": "exc:" + type(e).__name__}
                 slides.append({"flow": fid, "head": head, "ctx0": sorted([k, tr.val_to_model(v)] for k, v in ctxs[(head + len(slides)) % 3].items()), "out": res})
+        # (3a) every `if` element that sits inside a loop (it carries `_next_on_break`), with BOTH values of its
+        # condition: contexts found by evaluating the model expression with the reference evaluator
+        idx0 = {c["id"]: c["elems"] for c in (mc or [])}
+        cand_ctxs = [{"x": a, "y": b, "z": c, "r": r, "i": i, "j": j, "k": 0, "t": i + j}
+                     for (a, b, c, r, i, j) in [(0, 0, 0, False, 0, 0), (1, 2, 0, True, 1, 0), (2, 1, 1, 0, 2, 1), (3, 0, 2, None, 3, 2), (0, 3, 1, True, 4, 3),
+                                                (1, 1, 3, False, 0, 1), (2, 2, 2, 1, 1, 2), (0, 1, 0, True, 2, 0), (3, 3, 3, False, 3, 3), (1, 0, 1, True, 0, 2)]]
+        if_cov = []
+        for fid, fc in fresh_cfgs.items():
+            for head, el in enumerate(fc.elements):
+                if el.get("_type") != "if" or "_next_on_break" not in el or fid not in idx0 or len(if_cov) >= 24:
+                    continue
+                want = {True: None, False: None}
+                for cx in cand_ctxs:
+                    try:
+                        v = bool(ref_eval(idx0[fid][head]["c"], cx))
+                    except Exception:  # noqa  (_EvalError, or an expression form outside the reference evaluator)
+                        continue
+                    if want[v] is None:
+                        want[v] = cx
+                for v, cx in want.items():
+                    if cx is None:
+                        continue
+                    st = _M.fl.State(context=dict(cx), flow_states=[], flow_configs=fresh_cfgs)
+                    try:
+                        h = guarded(_M.sliding.slide, st, fc, head)
+                        res = {"res": "at" if h is not None and h >= 0 else "fin", "head": h, "ctx": sorted([k, tr.val_to_model(v2)] for k, v2 in st.context.items()), "upd": sorted([k, tr.val_to_model(v2)] for k, v2 in st.context_updates.items())}
+                    except _Hang:
+                        res = {"res": "hang"}
+                    except tr.Unsupported:
+                        res = {"res": "unsupported"}
+                    except Exception as e:  # noqa
+                        res = {"res": "err"} if str(e).startswith("Error evaluating") else {"res": "exc:" + type(e).__name__}
+                    slides.append({"flow": fid, "head": head, "ctx0": sorted([k, tr.val_to_model(v2)] for k, v2 in cx.items()), "out": res, "if_in_loop": v})
+                    if_cov.append(v)
+        obs["if_in_loop"] = [sum(1 for v in if_cov if v), sum(1 for v in if_cov if not v)]
         obs["slides"] = slides
         # (3b) slide WITH its side effect: `_label` keys injected into a copy of the parsed elements (and left-over
         # `_active_label`s of "earlier slides"); which dicts get `_active_label` written, and the outcome, must be
@@ -1653,8 +2031,10 @@ def run_impl(case):
                 ctx0 = ctxs[1]
                 st = _M.fl.State(context=dict(ctx0), flow_states=[], flow_configs={fid: fc2})
                 try:
-                    h = _M.sliding.slide(st, fc2, head)
+                    h = guarded(_M.sliding.slide, st, fc2, head)
                     res = {"res": "at" if h is not None and h >= 0 else "fin", "head": h, "upd": sorted([k, tr.val_to_model(v)] for k, v in st.context_updates.items())}
+                except _Hang:
+                    res = {"res": "hang"}
                 except tr.Unsupported:
                     res = {"res": "unsupported"}
                 except Exception as e:  # noqa
@@ -1680,7 +2060,10 @@ def model_requests(case, obs):
         reqs.append({"m": "C14.compile", "prog": prog_for_model(f["body"])})
     idx = {c["id"]: c["elems"] for c in obs["mcfgs"]}
     for s in obs["slides"]:
-        reqs.append({"m": "C14.slide", "elems": idx[s["flow"]], "ctx": s["ctx0"], "head": s["head"]})
+        r = {"m": "C14.slide", "elems": idx[s["flow"]], "ctx": s["ctx0"], "head": s["head"]}
+        if obs.get("akeys"):
+            r["keys"] = obs["akeys"][s["flow"]]   # -> V1Annot.slideA on the dicts with their loop keys
+        reqs.append(r)
     # the action loop: one request per turn driven through RuntimeV1_0.generate_events (kind rt)
     for g in obs.get("gen", []):
         reqs.append({"m": "C14.gen", "flows": obs["mcfgs"], "events": g["events"], "results": obs["gen_script"]})
@@ -1721,19 +2104,32 @@ def compare(case, obs, mouts):
             return f"compile(AST) differs from the parser's elements in flow {f['name']} at {i}: model {c['compile'][i:i+1]} parser {mc['elems'][i:i+1]}"
         if c["comp"] != c["compile"]:
             return f"comp none differs from compile in flow {f['name']}"
+        if c.get("compileA") is not None and c["compileA"] != c["compile"]:
+            return f"compileA (annotated compiler) does not project onto compile in flow {f['name']}"
+        ak = (obs.get("akeys") or {}).get(f["name"])
+        if ak is not None and c.get("keys") is not None and c["keys"] != ak:
+            i = next((i for i, (a, b) in enumerate(zip(c["keys"], ak)) if a != b), min(len(c["keys"]), len(ak)))
+            return (f"annotation pass: `_next_on_break` / `_next_on_continue` of element {i} of flow {f['name']}: "
+                    f"model compileA {c['keys'][i:i+1]} parser {ak[i:i+1]}")
     # slide tie
     for s, m in zip(obs["slides"], slides):
         o = s["out"]
         if o["res"] == "unsupported":
             continue
+        if m.get("same_as_plain") is False:
+            return f"slide({s['flow']}, head={s['head']}): the model's slide on the dicts WITH their loop keys (slideA) differs from slide without them: {m}"
+        if o["res"] == "hang" and m["res"] == "oof":
+            continue   # the real loop spins, the model's fuel runs out: both do not terminate from here
         if o["res"] != m["res"]:
-            return f"slide({s['flow']}, head={s['head']}): impl {o} model {m}"
+            return f"slide({s['flow']}, head={s['head']}): impl {o} model {m}" + (f" [`if` inside a loop, condition {s['if_in_loop']}]" if "if_in_loop" in s else "")
         if o["res"] in ("at", "fin"):
             if o["head"] != m["head"] or o["ctx"] != _norm_ctx(m["ctx"]) or o["upd"] != _norm_ctx(m["upd"]):
                 return f"slide({s['flow']}, head={s['head']}): impl {o} model {m}"
     # decisions on every prefix
     for k, (a, b) in enumerate(zip(obs["used"], steps)):
         b = _canon_model_res(b)
+        if is_hang(a) and b == {"exc": "oof"}:
+            continue   # compute_next_steps spins, the model's fuel runs out
         if a != b:
             return f"prefix {k}: impl {a} model {b}"
     # the action loop (generate_events) turn by turn; not compared inside the region of an open finding
@@ -1749,6 +2145,8 @@ def compare(case, obs, mouts):
     for sm, m in zip(obs.get("slides_m", []), slides_m):
         o = sm["out"]
         if o["res"] in ("unsupported",):
+            continue
+        if o["res"] == "hang" and m["res"] == "oof":
             continue
         if o["res"] != m["res"]:
             return f"slide+labels({sm['flow']}, head={sm['head']}): impl {o} model {m}"
@@ -1850,6 +2248,12 @@ def oracle(case, obs):
         if "exc" in got:
             if got["exc"] == "expr":
                 continue  # an expression raised: documented as an exception, nothing decided
+            if got["exc"] == "hang":
+                # the reference ran the structured program up to its next statement, so the program terminates from
+                # here: an interpreter that follows it statement by statement terminates as well
+                _G.sick += 1   # (main process: inherited by the workers that evaluate the shrink candidates)
+                return (f"FOLLOW: prefix {k}: compute_next_steps did not terminate (no return within {(obs.get('hangs') or {}).get('limit', HANG_CALL)} s of CPU time; "
+                        f"the call takes milliseconds) on a terminating structured program: the flow's next statement gives {e}")
             return f"FOLLOW: prefix {k}: compute_next_steps raised {got['exc']}, expected {e}"
         if got["ok"] != e:
             return ("ZOMBIE" if (flags[k] or obs["zombie"][k]) else "FOLLOW") + f": prefix {k}: decided {got['ok']}, the flow's next statement gives {e}"
@@ -2032,6 +2436,15 @@ def tags(case, obs):
         t.append("zombie-region")
     if any("exc" in d for d in obs["used"]):
         t.append("exc:" + next(d["exc"] for d in obs["used"] if "exc" in d))
+    if obs.get("hangs"):
+        t.append("hang-observed")
+    for wd, idp in sorted(if_in_while_profile(case["flows"])):
+        t.append("if-in-while:w%d-i%d" % (min(wd, 3), min(idp, 4)))
+    if obs.get("if_in_loop"):
+        if obs["if_in_loop"][0]:
+            t.append("slide@if-in-loop:cond-true")
+        if obs["if_in_loop"][1]:
+            t.append("slide@if-in-loop:cond-false")
     if any(ev["e"] == "hide" for ev in obs["history"]):
         t.append("hide")
     if obs.get("gen"):
@@ -2047,7 +2460,82 @@ def tags(case, obs):
     return t
 
 
+def _wild_loops(stmts):
+    """number of `while` loops whose termination is not evident from their shape: neither a body that starts with a
+    step statement (every iteration stops there) nor a counter loop (`while ($c < K)`, `$c = $c + n` (n >= 1) at the top
+    level of the body, no other assignment to $c and no `continue` before it)."""
+    def assigns(ss, v):
+        n = 0
+        for s in ss:
+            if "set" in s and s["set"][0] == v:
+                n += 1
+            elif "x" in s and s["x"][2] == v:
+                n += 1
+            elif "if" in s:
+                n += assigns(s["if"][1], v) + assigns(s["if"][2], v)
+            elif "while" in s:
+                n += assigns(s["while"][1], v)
+        return n
+
+    def has_continue(ss):
+        for s in ss:
+            if "continue" in s:
+                return True
+            if "if" in s and (has_continue(s["if"][1]) or has_continue(s["if"][2])):
+                return True
+        return False
+
+    n = 0
+    for s in stmts:
+        if "if" in s:
+            n += _wild_loops(s["if"][1]) + _wild_loops(s["if"][2])
+        elif "while" in s:
+            c, b = s["while"]
+            n += _wild_loops(b)
+            if b and ("u" in b[0] or "b" in b[0] or "x" in b[0]):
+                continue
+            ok = False
+            if "bin" in c and c["bin"][0] in ("lt", "le") and "var" in c["bin"][1] and "lit" in c["bin"][2]:
+                v = c["bin"][1]["var"]
+                for i, t in enumerate(b):
+                    if "set" in t and t["set"][0] == v:
+                        e = t["set"][1]
+                        inc = ("bin" in e and e["bin"][0] == "add" and e["bin"][1] == {"var": v} and "lit" in e["bin"][2]
+                               and isinstance(e["bin"][2]["lit"], dict) and e["bin"][2]["lit"].get("i", 0) >= 1)
+                        ok = inc and assigns(b, v) == 1 and not has_continue(b[:i])
+                        break
+            if not ok:
+                n += 1
+    return n
+
+
+def _terminates(case):
+    """the reference interpreter walks the candidate's history without running out of its statement budget"""
+    try:
+        r = Ref(case["flows"])
+        for ev in cut_history(case["history"]) or []:
+            r.feed(ev)
+            if r.budget_out:
+                return False
+        return True
+    except Exception:  # noqa
+        return True
+
+
 def shrink(case):
+    """Smaller cases.  A candidate must still be a TERMINATING structured program (a loop that lost its blocking first
+    statement or its counter increment spins forever in the reference, in the model and in the code under test alike —
+    that is no failing input): no new loop of non-evident termination, and the reference interpreter must get through
+    the candidate's history within its statement budget."""
+    wild = sum(_wild_loops(f["body"]) for f in case.get("flows", []))
+    for c in _shrink_raw(case):
+        if c["kind"] != "llm":
+            if sum(_wild_loops(f["body"]) for f in c["flows"]) > wild or not _terminates(c):
+                continue
+        yield c
+
+
+def _shrink_raw(case):
     if case["kind"] == "llm":
         if len(case["turns"]) > 1:
             yield dict(case, turns=case["turns"][:-1])
